@@ -21,6 +21,8 @@ impl<'a> Iterator for Tokenizer<'a> {
     type Item = Token;
 
     fn next(&mut self) -> Option<Token> {
+        #[cfg(feature = "verif_hooks")]
+        crate::verif_hooks::tick(crate::verif_hooks::Point::TokenNext);
         let current_char = self.expr.next();
 
         match current_char {
